@@ -16,7 +16,7 @@ Answer: one outcome per (context, global context) pair, separated by ";", each
 "ok <hex of the UTF-8 text>" | "err <class>" | "panic <site>" | "unmodelled <what>" | "fuel";
 or "bad-request <where>".
 
-Built-ins: the models of C17 (Model/Builtins.lean) and C16 (Model/CollFilters.lean); `sort`, `unique`, `group_by` and whatever they
+Built-ins: `Tera.Pipeline.BuiltinsM` (Model/PipelineBuiltins.lean: the models of C17, C16, C15); whatever they
 leave open (Unicode case mapping of non-ASCII text, float parsing, `round` with a precision) is
 "unmodelled".  Float arithmetic is executed with the hardware (`Float`), float printing by the exact
 shortest-round-trip algorithm of Driver/C03.lean (copied: a driver cannot import another driver).
@@ -27,6 +27,7 @@ import TeraModel.Model.VmBodyCheck
 import TeraModel.Model.Builtins
 import TeraModel.Model.AstWire
 import TeraModel.Generated.Builtins
+import TeraModel.Model.PipelineBuiltins
 open Tera Tera.Vm
 
 def toNative (x : F64) : Float := Float.ofBits (UInt64.ofNat x.toBits)
@@ -143,117 +144,12 @@ def fmtF64 (x0 : F64) : List Char :=
         sign ++ digits ++ List.replicate (k.toNat - digits.length) '0' ++ ['.', '0']
 
 
-/-! ### collection filters (filters.rs; the models of C16 live in Model/CollFilters.lean, which
-cannot be imported next to Model/EvalPrims.lean: both define `Value.asKey`) -/
-namespace Coll
-def first (val : List Value) : Value := val.head?.getD .none
-def last (val : List Value) : Value := val.getLast?.getD .none
-def nth (val : List Value) (n : Nat) : Value := (val[n]?).getD .none
-def len : Value → Option Nat
-  | .map m => some m.length | .arr xs => some xs.length | .bytes b => some b.length
-  | .str _ s => some s.length | _ => none
-def reverse : Value → Option Value
-  | .arr xs => some (.arr xs.reverse)
-  | .bytes b => some (.arr (b.reverse.map fun n => .u64 n))
-  | .str _ s => some (.str false s.reverse)
-  | _ => none
-def keys (m : List (Key × Value)) : List Value := (sortEntries m).map fun e => keyToValue e.1
-def values (m : List (Key × Value)) : List Value := (sortEntries m).map fun e => e.2
-def pairs (m : List (Key × Value)) : List Value := (sortEntries m).map fun e => .arr [keyToValue e.1, e.2]
-def joinStrs (sep : List Char) : List (List Char) → List Char
-  | [] => []
-  | [s] => s
-  | s :: rest => s ++ sep ++ joinStrs sep rest
-def join (fmt : Value → List Char) (val : List Value) (sep : List Char) : List Char :=
-  joinStrs sep (val.map fmt)
-def splitGo (pat : List Char) : List Char → List Char → Nat → List (List Char)
-  | [], acc, _ => [acc.reverse]
-  | _ :: cs, acc, skip + 1 => splitGo pat cs acc skip
-  | c :: cs, acc, 0 =>
-    if pat.isPrefixOf (c :: cs) then acc.reverse :: splitGo pat cs [] (pat.length - 1)
-    else splitGo pat cs (c :: acc) 0
-def splitStr (s pat : List Char) : List (List Char) :=
-  if pat.isEmpty then [] :: (s.map fun c => [c]) ++ [[]]
-  else splitGo pat s [] 0
-def split (s pat : List Char) : List Value := (splitStr s pat).map fun p => .str false p
-end Coll
+/-! ### built-ins: `Tera.Pipeline.BuiltinsM` (Model/PipelineBuiltins.lean — the models of C17, C16
+and C15 with a checked per-character case-mapping table), with the driver's float printer -/
 
-/-! ### built-ins -/
-open Tera.Args Tera.Builtins in
-def ofBErr : BErr → CallRes
-  | .invalidArg => .errInvalidArg
-  | _ => .err
-
-open Tera.Builtins in
-def ofOutcome : Builtins.Outcome → CallRes
-  | .ok v => .ok v
-  | .err e => ofBErr e
-  | .panic s => .panic s
-  | .unmodelled => .unmodelled
-
-def isAsciiStr (s : List Char) : Bool := s.all fun c => c.toNat < 128
-def caseFilters : List String := ["upper", "lower", "capitalize", "title"]
-
-def fmtV (v : Value) : List Char := v.format fmtF64
-
-open Tera.Args Tera.Builtins Coll in
-/-- `tera.filters[name].call(v, kw, state)` -/
-def callFilterImpl (name : String) (v : Value) (kw : List (String × Value)) : CallRes :=
-  match lookup (filterTable asciiParams) name with
-  | none => .unmodelled
-  | some b =>
-    match b.recv.check v with
-    | .error e => ofBErr e
-    | .ok () =>
-      let strKw (n : String) : Except BErr (Option (List Char)) := kwGet strFromValue kw n
-      match name, v with
-      | "safe", .str _ s => .ok (.str true s)
-      | "safe", v => .ok (.str true (fmtV v))
-      | "str", v => .ok (.str false (fmtV v))
-      | "length", v => match len v with | some n => .ok (.u64 n) | none => .err
-      | "reverse", v => match reverse v with | some r => .ok r | none => .err
-      | "first", .arr xs => .ok (first xs)
-      | "last", .arr xs => .ok (last xs)
-      | "nth", .arr xs =>
-        match kwMust (intFromValue 0 USIZE_MAX) kw "n" with
-        | .ok n => .ok (nth xs n.toNat)
-        | .error e => ofBErr e
-      | "join", .arr xs =>
-        match strKw "sep" with
-        | .ok sep => .ok (.str false (join fmtV xs (sep.getD [])))
-        | .error e => ofBErr e
-      | "keys", .map m => .ok (.arr (keys m))
-      | "values", .map m => .ok (.arr (values m))
-      | "pairs", .map m => .ok (.arr (pairs m))
-      | "split", .str _ s =>
-        match kwMust strFromValue kw "pat" with
-        | .ok pat => .ok (.arr (split s pat))
-        | .error e => ofBErr e
-      | "unique", .arr _ => .unmodelled
-      | "sort", .arr _ => .unmodelled
-      | "group_by", .arr _ => .unmodelled
-      | name, v =>
-        let r := b.body v kw
-        match v with
-        | .str _ s =>
-          if caseFilters.contains name && !isAsciiStr s then .unmodelled
-          else if name == "float" then .unmodelled
-          else if name == "int" && s.contains '.' then
-            (match r with | .err .msg => .unmodelled | o => ofOutcome o)
-          else ofOutcome r
-        | _ => ofOutcome r
-
-open Tera.Builtins in
-def callTestImpl (name : String) (v : Value) (kw : List (String × Value)) : CallRes :=
-  match lookup testTable name with
-  | none => .unmodelled
-  | some b => ofOutcome (b.apply v kw)
-
-open Tera.Builtins in
-def callFunctionImpl (name : String) (kw : List (String × Value)) : CallRes :=
-  match lookup (functionTable Generated.Builtins.MAX_RANGE_LEN) name with
-  | none => .unmodelled
-  | some b => ofOutcome (b.apply .undef kw)
+def callFilterImpl := Tera.Pipeline.BuiltinsM.callFilterM fmtF64
+def callTestImpl := Tera.Pipeline.BuiltinsM.callTestM
+def callFunctionImpl := Tera.Pipeline.BuiltinsM.callFunctionM
 
 /-! ### request parsing -/
 
